@@ -40,7 +40,7 @@ def run(ctx, chk):
     chk.rule('C17.3', 'D', 'the interrupt latch is set by a per-line falling-edge test: it fires whenever some line goes 1 -> 0 '
              'whatever the other lines do, and not when no line can have fallen', floor=2)
     chk.rule('C17.4', 'D', 'reported once: get_interrupt reads and clears the latch, is called once per device tick; release never '
-             'sets the latch', floor=3)
+             'sets the latch', floor=4)
     chk.rule('C17.5', 'D', 'I/O offset 0, and only it, routes to set_value / get_value: every write path hands the byte written to '
              'set_value, every read path returns what get_value returned', floor=2)
     facts = ctx.facts('default')
@@ -276,6 +276,17 @@ def run(ctx, chk):
         chk.ok('C17.4', 'once-per-tick', sample={'callers': [c[0] for c in cs]})
     else:
         chk.fail('C17.4', 'once-per-tick', 'get_interrupt call sites: %s' % [(c[0], c[2]) for c in cs], file, None)
+    # ... and on every way through the device tick: a return in front of the call (a "nothing fired" shortcut taken when
+    # the timer and the LCD raised nothing) leaves the latched request out of IF until some other device fires
+    RCC_ = 'devices::io::IO::run_clock_cycles'
+    famt = families(prog, [RCC_])
+    from .common import always_calls as _always
+    if RCC_ in _always(prog, famt, J + 'get_interrupt'):
+        chk.ok('C17.4', 'every-tick', sample={'function': RCC_, 'rule': 'every entry-to-return path calls Joypad::get_interrupt'})
+    else:
+        chk.fail('C17.4', 'every-tick', 'IO::run_clock_cycles can return without collecting the joypad request '
+                 '(Joypad::get_interrupt is not on every path): a latched falling edge does not reach IF on that path',
+                 'src/devices/io.rs', prog.fns[RCC_]['line'] if RCC_ in prog.fns else None)
     rel = prog.fns[J + 'release_button']
     lat = [w for w in prog.field_stores(OW, 'next_interrupt') if w[0] == J + 'release_button']
     if not lat:
